@@ -1,0 +1,27 @@
+//go:build verif
+
+package engine
+
+import "sort"
+
+// VerifFuncMapNames returns the sorted names of the template functions the engine
+// registers (the key set of funcMap()).
+func VerifFuncMapNames() []string {
+	m := funcMap()
+	names := make([]string, 0, len(m))
+	for k := range m {
+		names = append(names, k)
+	}
+	sort.Strings(names)
+	return names
+}
+
+// VerifSortTemplates runs sortTemplates on a template set with the given paths and
+// returns the parse/execute order.
+func VerifSortTemplates(paths []string) []string {
+	m := make(map[string]renderable, len(paths))
+	for _, p := range paths {
+		m[p] = renderable{}
+	}
+	return sortTemplates(m)
+}
